@@ -297,6 +297,7 @@ class Interpolator:
         braces_required,
         translate: bool = False,
         decode_htmlentities: bool = False,
+        char_escape=None,
     ) -> None:
         self.expression = expression
         self.regex = (
@@ -306,6 +307,7 @@ class Interpolator:
         )
         self.translate = translate
         self.decode_htmlentities = decode_htmlentities
+        self.char_escape = char_escape
 
     def __call__(self, name, engine):
         """The strategy is to find possible expression strings and
@@ -378,7 +380,12 @@ class Interpolator:
 
                 if string:
                     try:
-                        compiler = engine.parse(string)
+                        if self.char_escape is None:
+                            compiler = engine.parse(string)
+                        else:
+                            compiler = engine.parse(
+                                string, char_escape=self.char_escape
+                            )
                         body += compiler.assign_text(target)
                     except ExpressionError:
                         matched = matched[m.start():m.end() - 1]
